@@ -189,3 +189,23 @@ func c20Faults(N int) {
 
 func H_c20_faults_q() { c20Faults(3) }
 func H_c20_faults_t() { c20Faults(5) }
+
+// c20FaultsBig: larger instances (the weight section spans several tabwriter cells and any
+// internal buffering/flushing policy), one transient failure at a symbolic position.
+func c20FaultsBig(ns []int) {
+	n := ns[rt.Choice("n", len(ns))]
+	w := &c20W{}
+	w.failAt = rt.IntIn("failAt", 1, 4000)
+	w.perm = false
+	w.short = 0
+	err := LIB(w, n, func(i, j int) int { return 10*i + j })
+	if w.failed {
+		rt.Check(err != nil, "a Write failed but LIB returned nil")
+	} else {
+		rt.Check(err == nil, "LIB failed although no Write failed")
+	}
+	rt.Reach("end")
+}
+
+func H_c20_faultsbig_q() { c20FaultsBig([]int{16, 17}) }
+func H_c20_faultsbig_t() { c20FaultsBig([]int{16, 17, 32, 33, 40}) }
